@@ -401,6 +401,9 @@ class Eval:
             a = self.ev(v[1], env)
             return self.bnot(a) if isinstance(a, W) else UNKNOWN
         if k == 'op':
+            nv = self.normalise_cmp(v)
+            if nv is not v:
+                return self.ev(nv, env)
             op = v[1]
             if op in ('&&', '||'):
                 a, b = self.tri(v[2], env), self.tri(v[3], env)
@@ -448,6 +451,43 @@ class Eval:
                 return self.sub(a, b)
             return UNKNOWN
         return UNKNOWN
+
+    M64 = (1 << 64) - 1
+
+    def normalise_cmp(self, v):
+        """order comparisons with a power of two and tests of a right-shifted value are mask tests in disguise
+        (for unsigned 64-bit x):   x < 2^k  <=>  (x >> k) == 0  <=>  (x & ~(2^k - 1)) == 0 ;  x >= 2^k  <=>  ... != 0 ;
+        x <= 2^k - 1 and x > 2^k - 1 likewise.  Returns the rewritten expression, or v itself."""
+        op, a, b = v[1], v[2], v[3]
+
+        def isc(x):
+            return isinstance(x, tuple) and x and x[0] == 'c' and x[2] != 1
+
+        def mask_test(x, k, eq):
+            m = self.M64 ^ ((1 << k) - 1)
+            return ('op', '==' if eq else '!=', ('op', '&', x, ('c', m, 64), 64), ('c', 0, 64), 1)
+        if op in ('<', '<=', '>', '>='):
+            if isc(a) and not isc(b):
+                a, b, op = b, a, {'<': '>', '>': '<', '<=': '>=', '>=': '<='}[op]
+            if isc(b) and not isc(a) and isinstance(a, tuple) and (a[0] != 's' or a[2] == 64) and (len(a) < 5 or a[0] != 'op' or a[4] == 64):
+                kk = b[1]
+                bound = kk if op in ('<', '>=') else kk + 1       # x < bound  /  x >= bound
+                if bound > 0 and bound & (bound - 1) == 0 and bound.bit_length() - 1 >= self.L.ubit:
+                    return mask_test(a, bound.bit_length() - 1, op in ('<', '<='))
+                if bound == 1:
+                    return ('op', '==' if op in ('<', '<=') else '!=', a, ('c', 0, 64), 1)
+        if op in ('==', '!='):
+            for x, y in ((a, b), (b, a)):
+                if isc(y) and y[1] == 0 and isinstance(x, tuple) and x and x[0] == 'op' and x[1] == '>>' and isc(x[3]) and x[4] == 64 and 0 < x[3][1] < 64:
+                    return mask_test(x[2], x[3][1], op == '==')
+                # ((p ^ q) & M) == 0  <=>  (p & M) == (q & M) ;  (p ^ q) == 0  <=>  p == q
+                if isc(y) and y[1] == 0 and isinstance(x, tuple) and x and x[0] == 'op' and x[1] == '&' and x[4] == 64:
+                    for u, m in ((x[2], x[3]), (x[3], x[2])):
+                        if isc(m) and isinstance(u, tuple) and u and u[0] == 'op' and u[1] == '^' and u[4] == 64:
+                            return ('op', op, ('op', '&', u[2], m, 64), ('op', '&', u[3], m, 64), 1)
+                if isc(y) and y[1] == 0 and isinstance(x, tuple) and x and x[0] == 'op' and x[1] == '^' and x[4] == 64 and not isc(x[2]) and not isc(x[3]):
+                    return ('op', op, x[2], x[3], 1)
+        return v
 
     def tri(self, v, env):
         x = self.ev(v, env)
